@@ -262,6 +262,11 @@ def run(run):
     run_cases(run, "vf.props.C05", "check_case_reg", cases, {"fuse": True, "threads": 8})
     run_cases(run, "vf.props.C05", "source_case", [(k, n) for k in ("sorted", "unsorted", "dups") for n in (1, 3, 5)], {}, chunk=1)
     run.lemmas.append({"name": "L3 order-independence of evaluating a finite DAG of deterministic, non-mutating tasks", "status": "assumed (stated, not machine-checked in this run)"})
+    # tier P (the part of the property a contract can carry): tasks of the generic Blockwise layer and of the overlap layer
+    # communicate through explicit graph keys only - every argument is a literal or the key (dependency, i) / (dependency, 0)
+    from vf.contracts.registry import run_property_specs
+
+    run_property_specs(run, "C05")
     run.assume("L3: in a closed acyclic graph (C09) of deterministic tasks that do not mutate their arguments every dependency-respecting evaluation order yields the same value for every key; it is the only route by which this check says anything about ALL schedules")
     run.assume("NOT decided: interference between threads inside pandas / numpy / partd, on-disk state of the disk shuffle under concurrent runs, schedulers that do not respect dependencies; no schedule space is enumerated (sampled orders only)")
     run.trust("argument fingerprints use dask.base.tokenize (content hash of pandas objects) plus labels / dtypes / names / attrs")
